@@ -1,6 +1,7 @@
 import SignaloModel.Proofs.BridgeSimple
 import SignaloModel.Proofs.DiffIntVarProofs
 import SignaloModel.Proofs.RegDiffInt
+import SignaloModel.Proofs.OneStep
 /-!
 # C15 — Differentiate = first difference, integrate = running sum, mutually inverse
 
@@ -9,6 +10,9 @@ The property theorems for C15: `#check` prints each statement, `#print axioms` i
 -/
 open SignaloModel
 
+#check @Registry.differentiate_first
+#check @Registry.differentiate_step
+#check @Registry.integrate_step
 #check @Registry.differentiate_integrate_registry
 #check @Registry.integrate_differentiate_registry
 #check @Registry.diff_spec
@@ -19,6 +23,9 @@ open SignaloModel
 #check @DIV.int_diff
 #check @DIV.diff_int
 
+#print axioms Registry.differentiate_first
+#print axioms Registry.differentiate_step
+#print axioms Registry.integrate_step
 #print axioms Registry.differentiate_integrate_registry
 #print axioms Registry.integrate_differentiate_registry
 #print axioms Registry.diff_spec
